@@ -58,6 +58,369 @@ def contracts(reg):
                        modifies=["RR"])}))
 
 
+
+RX = "quantarhei/qm/liouvillespace/relaxationtensor.py::"
+LF = "quantarhei/qm/liouvillespace/lindbladform.py::"
+FT = "quantarhei/qm/liouvillespace/foerstertensor.py::"
+DAGGER = "forall((m, i, j), (range(0, Nb), range(0, Na), range(0, Na)), Ld[m,i,j] == conj(Lm[m,j,i]))"
+KEEP = "((a == b and c == d) or (a == c and b == d))"
+TRACE0 = "forall((c, d), (range(0, N), range(0, N)), Sum(a, range(0, N), {R}[a,a,c,d]) == 0)"
+HERM = "forall((a, b, c, d), (range(0, N), range(0, N), range(0, N), range(0, N)), conj({R}[a,b,c,d]) == {R}[b,a,d,c])"
+
+
+def contracts2(reg):
+    from props.common import plain_basis_properties
+    from qvc.values import Builtin
+    plain_basis_properties(reg.models)
+
+    # ---- _post_implementation: operator form kept, or converted -----------------------------------------------
+    def setup_post(S, as_ops):
+        serial_manager(S)
+        nb, na = S.int("Nb"), S.int("Na")
+        ham = S.obj("Hamiltonian(stub)", label="Hamiltonian", data=S.array("Hdata", (na, na), "real"), dim=na)
+        sbi = S.obj("SystemBathInteraction(stub)", label="sbi", N=nb)
+        me = S.obj(RT + "RedfieldRelaxationTensor", label="self", Hamiltonian=ham, SystemBathInteraction=sbi,
+                   as_operators=as_ops, dim=na)
+        return dict(self=me, Km=S.array("Km", (nb, na, na), "real"), Lm=S.array("Lm", (nb, na, na), "cx"),
+                    Ld=S.array("Ld", (nb, na, na), "cx"), Na=na, Nb=nb)
+
+    def ghost_post(S, env):
+        ghost_cfg(S, env)
+        env.setdefault("Nb", env["Km"].shape[0])
+        env.setdefault("Na", env["Km"].shape[1])
+
+    def result_post(S, env):
+        me = env["self"]
+        from qvc.values import is_z3
+        if me.fields.get("as_operators") is True:
+            me.fields["_Km"], me.fields["_Lm"], me.fields["_Ld"] = env["Km"], env["Lm"], env["Ld"]
+        else:
+            me.fields["_data"] = S.fresh_array((env["Na"],) * 4, "cx", prefix="data")
+        me.fields["_is_initialized"] = True
+        return None
+    ENS_OPS = [("operators-stored", "self.Km is Km and self.Lm is Lm and self.Ld is Ld"),
+               ("initialized", "self._is_initialized")]
+    ENS_TEN = [("tensor-is-sum-of-assembly-terms",
+                "forall((a, b, c, d), %s, self.data[a,b,c,d] == Sum(mm, range(0, Nb), %s))" % (R4, REL_M.format(m="mm"))),
+               ("initialized", "self._is_initialized")]
+    for as_ops, tag, ens in ((True, "#operators", ENS_OPS), (False, "#tensor", ENS_TEN)):
+        reg.add(Contract(RT + "RedfieldRelaxationTensor._post_implementation" + tag,
+                         setup=(lambda S, a=as_ops: setup_post(S, a)), ghost=ghost_post, result=result_post,
+                         requires=["Na >= 0", "Nb >= 0", "cfg.parallel_region >= 0", ("Ld-is-dagger-of-Lm", DAGGER)],
+                         ensures=ens))
+    reg.add(Contract(RT + "RedfieldRelaxationTensor._post_implementation", setup=lambda S: setup_post(S, False),
+                     ghost=ghost_post,
+                     dispatch=lambda env: "#operators" if env["self"].fields.get("as_operators") is True else "#tensor"))
+
+    # ---- Lindblad form ---------------------------------------------------------------------------------------
+    def setup_lind(S, as_ops):
+        serial_manager(S)
+        nb, na = S.int("Nb"), S.int("Na")
+        ham = S.obj("Hamiltonian(stub)", label="ham", data=S.array("Hdata", (na, na), "real"), dim=na)
+        sbi = S.obj("SystemBathInteraction(stub)", label="sbi", N=nb, KK=S.array("KK", (nb, na, na), "real"),
+                    rates=S.array("rates", (nb,), "real"))
+        me = S.obj(LF + "LindbladForm", label="self", Hamiltonian=ham, SystemBathInteraction=sbi,
+                   as_operators=as_ops, dim=na)
+        return dict(self=me, ham=ham, sbi=sbi, Na=na, Nb=nb)
+    reg.add(Contract(LF + "LindbladForm._implementation#operators", setup=lambda S: setup_lind(S, True), ghost=ghost_cfg,
+                     requires=["Na >= 0", "Nb >= 0", "cfg.parallel_region >= 0"],
+                     ensures=[("K-is-sbi-operators", "self.Km is sbi.KK"),
+                              ("L-is-half-rate-times-K", "forall((m, i, j), (range(0, Nb), range(0, Na), range(0, Na)), "
+                               "self.Lm[m,i,j] == sbi.rates[m]*sbi.KK[m,i,j]/2.0)"),
+                              ("Ld-is-dagger-of-L", "forall((m, i, j), (range(0, Nb), range(0, Na), range(0, Na)), "
+                               "self.Ld[m,i,j] == conj(self.Lm[m,j,i]))")]))
+    REL_LIND = REL_M.format(m="mm").replace("Km[", "sbi.KK[").replace("Lm[mm,", "LL[mm,").replace("Ld[mm,", "LD[mm,")
+    reg.add(Contract(LF + "LindbladForm._implementation#tensor", setup=lambda S: setup_lind(S, False), ghost=ghost_cfg,
+                     requires=["Na >= 0", "Nb >= 0", "cfg.parallel_region >= 0"],
+                     ensures=[("initialized", "self._is_initialized")]))
+
+    # ---- Redfield reference implementation: the part the property depends on ----------------------------------
+    def setup_impl(S, as_ops):
+        serial_manager(S)
+        nb, na, nt = S.int("Nb"), S.int("Na"), S.int("Nt")
+        ham = S.obj("Hamiltonian(stub)", label="ham", data=S.array("Hdata", (na, na), "real"), dim=na)
+        ta = S.obj("TimeAxis(stub)", label="ta", data=S.array("tdata", (nt,), "real"), length=nt,
+                   nearest=Builtin("TimeAxis.nearest", lambda ex, a, k, l: S.fresh_int("tcut")))
+        cc = S.obj("CorrelationFunctionMatrix(stub)", label="CC",
+                   get_coft=Builtin("CC.get_coft", lambda ex, a, k, l: S.fresh_array((nt,), "cx", prefix="coft")))
+        sbi = S.obj("SystemBathInteraction(stub)", label="sbi", N=nb, KK=S.array("KK", (nb, na, na), "real"),
+                    TimeAxis=ta, aggregate=None, molecule=None, CC=cc)
+        me = S.obj(RT + "RedfieldRelaxationTensor", label="self", Hamiltonian=ham, SystemBathInteraction=sbi,
+                   as_operators=as_ops, dim=na, _has_cutoff_time=S.bool("has_cutoff"), cutoff_time=S.real("cutoff_time"))
+        return dict(self=me, ham=ham, sbi=sbi, Na=na, Nb=nb)
+    reg.add(Contract(RT + "RedfieldRelaxationTensor._guts_Cmplx_Splines", modifies=["Lm"],
+                     notes="frame only: writes Lm; the numerical content (spline integral) is irrelevant for C01"))
+    for as_ops, tag in ((True, "#operators"), (False, "#tensor")):
+        ens = [("initialized", "self._is_initialized")]
+        if as_ops:
+            ens.append(("Ld-is-dagger-of-Lm", "forall((m, i, j), (range(0, Nb), range(0, Na), range(0, Na)), "
+                        "self.Ld[m,i,j] == conj(self.Lm[m,j,i]))"))
+        reg.add(Contract(RT + "RedfieldRelaxationTensor._implementation" + tag,
+                         setup=(lambda S, a=as_ops: setup_impl(S, a)), ghost=ghost_cfg,
+                         requires=["Na >= 0", "Nb >= 0", "cfg.parallel_region >= 0"], ensures=ens,
+                         loops={2: dict(inv=[], modifies=["Km"]), 3: dict(inv=[], modifies=["Lm"])}))
+
+    # ---- secularisation -----------------------------------------------------------------------------------------
+    def setup_sec(S):
+        n = S.int("N")
+        me = S.obj(RX + "RelaxationTensor", label="self", as_operators=False, _data=S.array("data", (n, n, n, n), "cx"))
+        return dict(self=me, legacy=True, N=n)
+    reg.add(Contract(RX + "RelaxationTensor.secularize", setup=setup_sec, requires=["N >= 0"], modifies=["self._data"],
+                     ensures=[("secular-projection",
+                               "forall((a, b, c, d), (range(0, N), range(0, N), range(0, N), range(0, N)), "
+                               "self.data[a,b,c,d] == ite(%s, old(self.data)[a,b,c,d], 0))" % KEEP)]))
+
+    def setup_sec_td(S):
+        n, nt = S.int("N"), S.int("Nt")
+        me = S.obj(RX + "RelaxationTensor", label="self", as_operators=False, _data=S.array("data", (nt, n, n, n, n), "cx"))
+        return dict(self=me, legacy=True, N=n, Nt=nt)
+    reg.add(Contract(RX + "RelaxationTensor.secularize#timedependent", setup=setup_sec_td, requires=["N >= 0", "Nt >= 0"],
+                     modifies=["self._data"],
+                     ensures=[("secular-projection-at-every-time",
+                               "forall((t, a, b, c, d), (range(0, Nt), range(0, N), range(0, N), range(0, N), range(0, N)), "
+                               "self.data[t,a,b,c,d] == ite(%s, old(self.data)[t,a,b,c,d], 0))" % KEEP)]))
+
+    # ---- completion of rate-only tensors ------------------------------------------------------------------------
+    def setup_upd(S):
+        n = S.int("N")
+        me = S.obj(RX + "RelaxationTensor", label="self", dim=n, _data=S.array("data", (n, n, n, n), "cx"))
+        return dict(self=me, N=n)
+    RATE_ONLY = ("forall((a, b, c, d), (range(0, N), range(0, N), range(0, N), range(0, N)), "
+                 "implies(not (a == b and c == d and a != c), self._data[a,b,c,d] == 0))")
+    def ghost_dim(S, env):
+        env.setdefault("N", env["self"].fields["dim"])
+    reg.add(Contract(RX + "RelaxationTensor.updateStructure", setup=setup_upd, ghost=ghost_dim,
+                     requires=["N >= 0", ("rate-only-tensor", RATE_ONLY)], modifies=["self._data"],
+                     ensures=[("transfer-rates-unchanged",
+                               "forall((a, c), (range(0, N), range(0, N)), implies(a != c, self._data[a,a,c,c] == old(self._data)[a,a,c,c]))"),
+                              ("depopulation-is-minus-sum-of-outgoing-rates",
+                               "forall(n, range(0, N), self._data[n,n,n,n] == -Sum(a, range(0, N), ite(a == n, 0, old(self._data)[a,a,n,n])))"),
+                              ("dephasing-is-mean-depopulation",
+                               "forall((n, m), (range(0, N), range(0, N)), implies(n != m, self._data[n,m,n,m] == "
+                               "(self._data[n,n,n,n] + self._data[m,m,m,m])/2.0))"),
+                              ("everything-else-zero",
+                               "forall((a, b, c, d), (range(0, N), range(0, N), range(0, N), range(0, N)), "
+                               "implies(not %s, self._data[a,b,c,d] == 0))" % KEEP)],
+                     loops={1: dict(inv=[
+                         "forall(n, range(0, N), self._data[n,n,n,n] == entry(self._data)[n,n,n,n])",
+                         "forall((a, c), (range(0, N), range(0, N)), implies(a != c, self._data[a,a,c,c] == entry(self._data)[a,a,c,c]))",
+                         "forall((n, m), (range(0, _i), range(0, N)), implies(n < m, self._data[n,m,n,m] == "
+                         "(entry(self._data)[n,n,n,n] + entry(self._data)[m,m,m,m])/2.0 and self._data[m,n,m,n] == self._data[n,m,n,m]))",
+                         "forall((a, b, c, d), (range(0, N), range(0, N), range(0, N), range(0, N)), "
+                         "implies(not %s, self._data[a,b,c,d] == 0))" % KEEP,
+                         "forall((n, m), (range(0, N), range(0, N)), implies(n >= _i and m >= _i and n != m, self._data[n,m,n,m] == 0))",
+                         "forall((n, m), (range(0, N), range(0, N)), implies(n < _i and m < n, self._data[m,n,m,n] == self._data[n,m,n,m]))",
+                     ], modifies=["self._data"]),
+                            2: dict(inv=[
+                         "forall(n, range(0, N), self._data[n,n,n,n] == entry(self._data)[n,n,n,n])",
+                         "forall((a, c), (range(0, N), range(0, N)), implies(a != c, self._data[a,a,c,c] == entry(self._data)[a,a,c,c]))",
+                         "forall(m, range(nn + 1, _i), self._data[nn,m,nn,m] == (self._data[nn,nn,nn,nn] + self._data[m,m,m,m])/2.0 "
+                         "and self._data[m,nn,m,nn] == self._data[nn,m,nn,m])",
+                         "forall((a, b, c, d), (range(0, N), range(0, N), range(0, N), range(0, N)), "
+                         "implies(not ((a == nn and c == nn and b == d and b > nn and b < _i) or (b == nn and d == nn and a == c and a > nn and a < _i)), "
+                         "self._data[a,b,c,d] == entry(self._data)[a,b,c,d]))",
+                     ], modifies=["self._data"])}))
+    # ---- time-dependent variants (rank-5 data, first index = time) ----------------------------------------------
+    def setup_upd_td(S):
+        n, nt = S.int("N"), S.int("Nt")
+        me = S.obj(RX + "RelaxationTensor", label="self", dim=n, _data=S.array("data", (nt, n, n, n, n), "cx"))
+        return dict(self=me, N=n, Nt=nt)
+
+    def ghost_dim_td(S, env):
+        env.setdefault("N", env["self"].fields["dim"])
+        env.setdefault("Nt", env["self"].fields["_data"].shape[0])
+    T4 = "(range(0, Nt), range(0, N), range(0, N), range(0, N), range(0, N))"
+    RATE_ONLY_TD = ("forall((t, a, b, c, d), %s, implies(not (a == b and c == d and a != c), self._data[t,a,b,c,d] == 0))" % T4)
+    reg.add(Contract(RX + "RelaxationTensor.updateStructure#timedependent", setup=setup_upd_td, ghost=ghost_dim_td,
+                     requires=["N >= 0", "Nt >= 0", ("rate-only-tensor", RATE_ONLY_TD)], modifies=["self._data"],
+                     ensures=[("transfer-rates-unchanged",
+                               "forall((t, a, c), (range(0, Nt), range(0, N), range(0, N)), implies(a != c, self._data[t,a,a,c,c] == old(self._data)[t,a,a,c,c]))"),
+                              ("depopulation-is-minus-sum-of-outgoing-rates",
+                               "forall((t, n), (range(0, Nt), range(0, N)), self._data[t,n,n,n,n] == -Sum(a, range(0, N), ite(a == n, 0, old(self._data)[t,a,a,n,n])))"),
+                              ("dephasing-is-mean-depopulation",
+                               "forall((t, n, m), (range(0, Nt), range(0, N), range(0, N)), implies(n != m, self._data[t,n,m,n,m] == "
+                               "(self._data[t,n,n,n,n] + self._data[t,m,m,m,m])/2.0))"),
+                              ("everything-else-zero",
+                               "forall((t, a, b, c, d), %s, implies(not %s, self._data[t,a,b,c,d] == 0))" % (T4, KEEP))],
+                     loops={4: dict(inv=[
+                         "forall((t, n), (range(0, Nt), range(0, N)), self._data[t,n,n,n,n] == entry(self._data)[t,n,n,n,n])",
+                         "forall((t, a, c), (range(0, Nt), range(0, N), range(0, N)), implies(a != c, self._data[t,a,a,c,c] == entry(self._data)[t,a,a,c,c]))",
+                         "forall((t, n, m), (range(0, Nt), range(0, _i), range(0, N)), implies(n < m, self._data[t,n,m,n,m] == "
+                         "(entry(self._data)[t,n,n,n,n] + entry(self._data)[t,m,m,m,m])/2.0 and self._data[t,m,n,m,n] == self._data[t,n,m,n,m]))",
+                         "forall((t, a, b, c, d), %s, implies(not %s, self._data[t,a,b,c,d] == 0))" % (T4, KEEP),
+                         "forall((t, n, m), (range(0, Nt), range(0, N), range(0, N)), implies(n >= _i and m >= _i and n != m, self._data[t,n,m,n,m] == 0))",
+                         "forall((t, n, m), (range(0, Nt), range(0, N), range(0, N)), implies(n < _i and m < n, self._data[t,m,n,m,n] == self._data[t,n,m,n,m]))",
+                     ], modifies=["self._data"]),
+                            5: dict(inv=[
+                         "forall((t, n), (range(0, Nt), range(0, N)), self._data[t,n,n,n,n] == entry(self._data)[t,n,n,n,n])",
+                         "forall((t, a, c), (range(0, Nt), range(0, N), range(0, N)), implies(a != c, self._data[t,a,a,c,c] == entry(self._data)[t,a,a,c,c]))",
+                         "forall((t, m), (range(0, Nt), range(nn + 1, _i)), self._data[t,nn,m,nn,m] == (self._data[t,nn,nn,nn,nn] + self._data[t,m,m,m,m])/2.0 "
+                         "and self._data[t,m,nn,m,nn] == self._data[t,nn,m,nn,m])",
+                         "forall((t, a, b, c, d), %s, "
+                         "implies(not ((a == nn and c == nn and b == d and b > nn and b < _i) or (b == nn and d == nn and a == c and a > nn and a < _i)), "
+                         "self._data[t,a,b,c,d] == entry(self._data)[t,a,b,c,d]))" % T4,
+                     ], modifies=["self._data"])}))
+    reg.contracts[RX + "RelaxationTensor.updateStructure"].dispatch = \
+        lambda env: "#timedependent" if env["self"].fields["_data"].rank == 5 else ""
+
+
+TD = "quantarhei/qm/liouvillespace/tdredfieldtensor.py::"
+T5 = "(range(0, Nt), range(0, Na), range(0, Na), range(0, Na), range(0, Na))"
+REL_TD = ("Km[{m},a,c]*Ld[t,{m},d,b] + Lm[t,{m},a,c]*Km[{m},b,d] "
+          "- ite(b == d, Sum(k, range(0, Na), Km[{m},k,a]*Lm[t,{m},k,c]), 0) "
+          "- ite(a == c, Sum(k, range(0, Na), Ld[t,{m},d,k]*Km[{m},k,b]), 0)")
+# the time-dependent code writes K where the static code writes K^T (it relies on K being symmetric)
+REL_TD_CODE = ("Km[{m},a,c]*Ld[t,{m},d,b] + Lm[t,{m},a,c]*Km[{m},d,b] "
+               "- ite(b == d, Sum(k, range(0, Na), Km[{m},a,k]*Lm[t,{m},k,c]), 0) "
+               "- ite(a == c, Sum(k, range(0, Na), Ld[t,{m},d,k]*Km[{m},k,b]), 0)")
+K_SYM = "forall((m, i, j), (range(0, Nb), range(0, Na), range(0, Na)), Km[m,i,j] == Km[m,j,i])"
+
+
+def contracts_td(reg):
+    from qvc.values import Builtin, SymArr
+    import z3
+
+    def setup_conv(S):
+        serial_manager(S)
+        nb, na, nt = S.int("Nb"), S.int("Na"), S.int("Nt")
+        ham = S.obj("Hamiltonian(stub)", label="Hamiltonian", data=S.array("Hdata", (na, na), "real"))
+        sbi = S.obj("SystemBathInteraction(stub)", label="sbi", N=nb)
+        me = S.obj(TD + "TDRedfieldRelaxationTensor", label="self", Hamiltonian=ham, SystemBathInteraction=sbi, Nt=nt)
+        return dict(self=me, Km=S.array("Km", (nb, na, na), "real"), Lm=S.array("Lm", (nt, nb, na, na), "cx"),
+                    Ld=S.array("Ld", (nt, nb, na, na), "cx"), Na=na, Nb=nb, Nt=nt)
+
+    def ghost_conv(S, env):
+        env.setdefault("Nb", env["Km"].shape[0])
+        env.setdefault("Na", env["Km"].shape[1])
+        env.setdefault("Nt", env["self"].fields["Nt"])
+    reg.add(Contract(
+        TD + "TDRedfieldRelaxationTensor._convert_operators_2_tensor", setup=setup_conv, ghost=ghost_conv,
+        result=lambda S, env: S.fresh_array((env["Nt"],) + (env["Na"],) * 4, "cx", prefix="RR"),
+        requires=["Na >= 0", "Nb >= 0", "Nt >= 0", ("K-operators-symmetric", K_SYM)],
+        ensures=[("tensor-is-sum-of-assembly-terms-at-every-time",
+                  "forall((t, a, b, c, d), %s, result[t,a,b,c,d] == Sum(mm, range(0, Nb), %s))" % (T5, REL_TD_CODE.format(m="mm")))],
+        loops={0: dict(inv=["forall((t, a, b, c, d), %s, RR[t,a,b,c,d] == Sum(mm, range(0, _i), %s))"
+                            % (T5, REL_TD_CODE.format(m="mm"))], modifies=["RR"])}))
+
+    def setup_sec(S):
+        n, nt = S.int("N"), S.int("Nt")
+        me = S.obj(TD + "TDRedfieldRelaxationTensor", label="self", as_operators=False,
+                   _data=S.array("data", (nt, n, n, n, n), "cx"))
+        return dict(self=me, N=n, Nt=nt)
+    reg.add(Contract(TD + "TDRedfieldRelaxationTensor.secularize", setup=setup_sec, requires=["N >= 0", "Nt >= 0"],
+                     modifies=["self._data"], raises={},
+                     ensures=[("secular-projection-at-every-time",
+                               "forall((t, a, b, c, d), (range(0, Nt), range(0, N), range(0, N), range(0, N), range(0, N)), "
+                               "self.data[t,a,b,c,d] == ite(%s, old(self.data)[t,a,b,c,d], 0))" % KEEP)]))
+
+    # ---- reference implementation ------------------------------------------------------------------------------
+    coft_re = z3.Function("u_coft_re", z3.IntSort(), z3.IntSort(), z3.ArraySort(z3.IntSort(), z3.RealSort()))
+    coft_im = z3.Function("u_coft_im", z3.IntSort(), z3.IntSort(), z3.ArraySort(z3.IntSort(), z3.RealSort()))
+
+    def setup_impl(S, as_ops):
+        serial_manager(S)
+        nb, na, nt = S.int("Nb"), S.int("Na"), S.int("Ntime")
+        ham = S.obj("Hamiltonian(stub)", label="ham", data=S.array("Hdata", (na, na), "real"), dim=na)
+        ta = S.obj("TimeAxis(stub)", label="ta", data=S.array("tdata", (nt,), "real"), length=nt,
+                   nearest=Builtin("TimeAxis.nearest", lambda ex, a, k, l: S.ex.globals_heap["tcut"]))
+        tc = S.int("tcut")
+        S.ex.globals_heap["tcut"] = tc
+        S.ex.assume(z3.And(tc >= 0, tc <= nt))
+
+        def get_coft(ex, a, k, l):
+            from qvc.values import z3int
+            return SymArr((nt,), "cx", re=coft_re(z3int(a[0]), z3int(a[1])), im=coft_im(z3int(a[0]), z3int(a[1])),
+                          name="coft")
+        cc = S.obj("CorrelationFunctionMatrix(stub)", label="CC", get_coft=Builtin("CC.get_coft", get_coft))
+        sbi = S.obj("SystemBathInteraction(stub)", label="sbi", N=nb, KK=S.array("KK", (nb, na, na), "real"),
+                    TimeAxis=ta, aggregate=None, molecule=None, CC=cc)
+        me = S.obj(TD + "TDRedfieldRelaxationTensor", label="self", Hamiltonian=ham, SystemBathInteraction=sbi,
+                   as_operators=as_ops, dim=na, _has_cutoff_time=S.bool("has_cutoff"), cutoff_time=S.real("cutoff_time"))
+        return dict(self=me, ham=ham, sbi=sbi, Na=na, Nb=nb)
+    KK_SYM = "forall((m, i, j), (range(0, Nb), range(0, Na), range(0, Na)), sbi.KK[m,i,j] == sbi.KK[m,j,i])"
+    LOOPS = {2: dict(inv=["forall((n, i, j), (range(0, _i), range(0, Na), range(0, Na)), Km[n,i,j] == Km[n,j,i])"],
+                     modifies=["Km"],
+                     use_post=[("congruence_symmetric", {"N": "Na", "S": "SS", "S1": "S1", "P": "sbi.KK[ns,:,:]",
+                                                         "M": "Km[ns,:,:]"})])}
+    for as_ops, tag in ((True, "#operators"), (False, "#tensor")):
+        if as_ops:
+            ens = [("Ld-is-dagger-of-Lm-at-every-time",
+                    "forall((t, m, i, j), (range(0, self.Nt), range(0, Nb), range(0, Na), range(0, Na)), "
+                    "self.Ld[t,m,i,j] == conj(self.Lm[t,m,j,i]))"),
+                   ("K-operators-symmetric", "forall((m, i, j), (range(0, Nb), range(0, Na), range(0, Na)), "
+                                             "self.Km[m,i,j] == self.Km[m,j,i])")]
+        else:
+            ens = [("initialized", "self._is_initialized and self._data_initialized")]
+        reg.add(Contract(TD + "TDRedfieldRelaxationTensor._implementation" + tag,
+                         setup=(lambda S, a=as_ops: setup_impl(S, a)),
+                         requires=["Na >= 0", "Nb >= 0", "sbi.TimeAxis.length >= 0",
+                                   ("system-operators-symmetric", KK_SYM)],
+                         ensures=ens, loops=LOOPS))
+
+
+def contracts3(reg):
+    """Foerster tensors"""
+    from props.common import transparent_units_contexts
+    from qvc.values import Builtin, Obj, lam_array
+    transparent_units_contexts(reg.models)
+
+    def diag_column(ex, a, k, l):
+        R, c = a
+        snap = R.snapshot()
+        return lam_array((R.shape[0],), R.dtype, lambda xs: snap.get([xs[0], xs[0], c, c]))
+    reg.models.table["diag_column"] = Builtin("spec:diag_column", diag_column)
+
+    def frm_hook(ex, cinfo, args, kwargs, line):
+        if cinfo.name == "FoersterRateMatrix":
+            ex.used_models.add("assume:FoersterRateMatrix.data is a real (N,N) array (C06)")
+            ham = args[0]
+            n = ham.fields["dim"]
+            from qvc.values import SymArr
+            return (Obj("FoersterRateMatrix(stand-in)", {"data": SymArr((n, n), "real", name="frm")}),)
+        return None
+    reg.models.hooks_instantiate.append(frm_hook)
+
+    def setup_f(S, pd):
+        serial_manager(S)
+        n, nt = S.int("N"), S.int("Nt")
+        ham = S.obj("Hamiltonian(stub)", label="Hamiltonian", dim=n)
+        ta = S.obj("TimeAxis(stub)", label="ta", length=nt)
+        cc = S.obj("CorrelationFunctionMatrix(stub)", label="CC",
+                   create_one_integral=Builtin("CC.create_one_integral", lambda ex, a, k, l: None),
+                   get_hoft=Builtin("CC.get_hoft", lambda ex, a, k, l: S.fresh_array((nt,), "cx", prefix="hoft")))
+        sbi = S.obj("SystemBathInteraction(stub)", label="sbi", TimeAxis=ta, CC=cc)
+        me = S.obj(FT + "FoersterRelaxationTensor", label="self", Hamiltonian=ham, SystemBathInteraction=sbi, dim=n,
+                   _has_cutoff_time=False, pure_dephasing=pd)
+        return dict(self=me, N=n, Nt=nt)
+
+    def setup_ad(S):
+        d = setup_f(S, True)
+        d["self"].fields["_data"] = S.array("data", (d["N"],) * 4, "cx")
+        return d
+    COH_HERM = "forall((a, b), (range(0, N), range(0, N)), implies(a != b, conj({D}[a,b,a,b]) == {D}[b,a,b,a]))"
+    def ghost_ad(S, env):
+        env.setdefault("N", env["self"].fields["dim"])
+        env.setdefault("Nt", env["self"].fields["SystemBathInteraction"].fields["TimeAxis"].fields["length"])
+    reg.add(Contract(FT + "FoersterRelaxationTensor.add_dephasing", setup=setup_ad, ghost=ghost_ad,
+                     requires=["N >= 0", "Nt >= 1", ("coherence-elements-hermitian", COH_HERM.format(D="self._data"))],
+                     modifies=["self._data"],
+                     ensures=[("coherence-elements-stay-hermitian", COH_HERM.format(D="self._data")),
+                              ("only-coherence-decay-elements-change",
+                               "forall((a, b, c, d), (range(0, N), range(0, N), range(0, N), range(0, N)), "
+                               "implies(not (a == c and b == d and a != b), self._data[a,b,c,d] == old(self._data)[a,b,c,d]))")]))
+    for pd, tag in ((False, "#nodephasing"), (True, "#puredephasing")):
+        reg.add(Contract(FT + "FoersterRelaxationTensor.initialize" + tag, setup=(lambda S, pd=pd: setup_f(S, pd)),
+                         requires=["N >= 0", "Nt >= 1"],
+                         ensures=[("population-columns-traceless",
+                                   "Sum(a, range(0, N), self._data[a,a,c,c]) == 0",
+                                   dict(forall={"c": "range(0, N)"},
+                                        use=[("sum_split_at_cx", {"N": "N", "n": "c", "F": "diag_column(self._data, c)"})])),
+                                  ("off-population-columns-zero",
+                                   "forall((a, c, d), (range(0, N), range(0, N), range(0, N)), implies(c != d, self._data[a,a,c,d] == 0))"),
+                                  ("hermitian", "forall((a, b, c, d), (range(0, N), range(0, N), range(0, N), range(0, N)), "
+                                   "conj(self._data[a,b,c,d]) == self._data[b,a,d,c])")]))
+
+
 def lemma_redfield(ctx):
     """the postcondition of _convert_operators_2_tensor + what _implementation establishes about its arguments
     (Km real by dtype, Ld = Lm^dagger) are the hypotheses of the Lean lemmas redfield_trace / redfield_herm"""
@@ -80,9 +443,99 @@ def lemma_redfield(ctx):
                         where="props/C01.py (over the contract of _convert_operators_2_tensor)")
 
 
+def lemma_redfield_td(ctx):
+    """time-dependent tensor: postcondition of the conversion (K used where the formula has K^T) + K symmetric + Ld = Lm^dagger
+    give, at every time index t, the hypotheses of the Lean lemmas redfield_trace / redfield_herm"""
+    from qvc.values import SymArr
+
+    def setup(S):
+        nb, na, nt = S.int("Nb"), S.int("Na"), S.int("Nt")
+        t = S.int("t")
+        Km = S.array("Km", (nb, na, na), "real")
+        Lm = S.array("Lm", (nt, nb, na, na), "cx")
+        Ld = S.array("Ld", (nt, nb, na, na), "cx")
+        RR = S.array("RR", (nt, na, na, na, na), "cx")
+
+        def view(A):
+            return SymArr(A.shape[1:], A.dtype, base=A, imap=lambda sub, t=t: (t,) + tuple(sub))
+        return dict(Nb=nb, Na=na, Nt=nt, N=na, t=t, Km=Km, Lm=Lm, Ld=Ld, RR=RR, K=Km, L=view(Lm), Ld_t=view(Ld),
+                    R=view(RR))
+    post = ["Na >= 0", "Nb >= 0", "0 <= t and t < Nt",
+            "forall((tt, a, b, c, d), %s, RR[tt,a,b,c,d] == Sum(mm, range(0, Nb), %s))"
+            % (T5.replace("range(0, Nt)", "range(0, Nt)"), REL_TD_CODE.format(m="mm").replace("[t,", "[tt,")),
+            K_SYM,
+            "forall((tt, m, i, j), (range(0, Nt), range(0, Nb), range(0, Na), range(0, Na)), Ld[tt,m,i,j] == conj(Lm[tt,m,j,i]))"]
+    goals = [(n, c.replace("Ld[", "Ld_t[")) for n, c in lemmalib.LEMMAS["redfield_td_herm"]["hyps"]]
+    ctx.used_lemmas = set(getattr(ctx, "used_lemmas", ())) | {"redfield_td_trace", "redfield_td_herm"}
+    return clause_lemma(ctx, "td-convert-post-gives-lemma-hypotheses-at-each-time", setup, post, goals,
+                        where="props/C01.py (over the contract of TDRedfieldRelaxationTensor._convert_operators_2_tensor)")
+
+
+def lemma_secular(ctx):
+    """secular projection (postcondition of secularize) keeps trace-zero and Hermiticity"""
+    def setup(S):
+        n = S.int("N")
+        return dict(N=n, R=S.array("R", (n, n, n, n), "cx"), Rs=S.array("Rs", (n, n, n, n), "cx"))
+    hyps = ["N >= 0",
+            "forall((a, b, c, d), (range(0, N), range(0, N), range(0, N), range(0, N)), "
+            "Rs[a,b,c,d] == ite(%s, R[a,b,c,d], 0))" % KEEP,
+            TRACE0.format(R="R"), HERM.format(R="R")]
+    goals = [("secular-tensor-traceless", TRACE0.format(R="Rs")), ("secular-tensor-hermitian", HERM.format(R="Rs")),
+             ("population-transfer-elements-unchanged",
+              "forall((a, b), (range(0, N), range(0, N)), Rs[a,a,b,b] == R[a,a,b,b])"),
+             ("coherence-decay-elements-unchanged",
+              "forall((a, b), (range(0, N), range(0, N)), Rs[a,b,a,b] == R[a,b,a,b])")]
+    return clause_lemma(ctx, "secularization-keeps-identities", setup, hyps, goals,
+                        where="props/C01.py (over the contract of RelaxationTensor.secularize)")
+
+
+def lemma_rate_structure(ctx):
+    """completion of a rate-only tensor (postcondition of updateStructure) with real rates is traceless and Hermitian"""
+    def setup(S):
+        n = S.int("N")
+        return dict(N=n, R=S.array("R", (n, n, n, n), "cx"), k=S.array("k", (n, n), "real"), c0=S.int("c0"))
+    hyps = ["N >= 0", "0 <= c0 and c0 < N",
+            "forall((a, c), (range(0, N), range(0, N)), implies(a != c, R[a,a,c,c] == k[a,c]))",
+            "forall(n, range(0, N), R[n,n,n,n] == -Sum(a, range(0, N), ite(a == n, 0, k[a,n])))",
+            "forall((n, m), (range(0, N), range(0, N)), implies(n != m, R[n,m,n,m] == (R[n,n,n,n] + R[m,m,m,m])/2.0))",
+            "forall((a, b, c, d), (range(0, N), range(0, N), range(0, N), range(0, N)), implies(not %s, R[a,b,c,d] == 0))" % KEEP]
+    goals = [("population-column-traceless", "Sum(a, range(0, N), R[a,a,c0,c0]) == 0"),
+             ("off-population-columns-traceless",
+              "forall((c, d), (range(0, N), range(0, N)), implies(c != d, forall(a, range(0, N), R[a,a,c,d] == 0)))"),
+             ("hermitian", HERM.format(R="R"))]
+    # split the column sum at a = c0:  Sum_a R[a,a,c0,c0] = R[c0,c0,c0,c0] + Sum_a (a==c0 ? 0 : R[a,a,c0,c0])
+    from qvc.values import lam_array
+    use = [("sum_split_at_cx", {"N": "N", "n": "c0", "F": "diagcol"})]
+
+    def setup2(S):
+        d = setup(S)
+        R, c0 = d["R"], d["c0"]
+        d["diagcol"] = lam_array((d["N"],), "cx", lambda xs: R.get([xs[0], xs[0], c0, c0]))
+        return d
+    return clause_lemma(ctx, "rate-structure-gives-identities", setup2, hyps, goals, use=use,
+                        where="props/C01.py (over the contract of RelaxationTensor.updateStructure)")
+
+
 def plan(ctx):
     p = Plan("C01")
     contracts(ctx.registry)
-    p.functions = [RT + "_loopit", RT + "RedfieldRelaxationTensor._convert_operators_2_tensor"]
-    p.lemmas = [lemma_redfield]
+    contracts2(ctx.registry)
+    contracts3(ctx.registry)
+    contracts_td(ctx.registry)
+    p.functions = [RT + "_loopit", RT + "RedfieldRelaxationTensor._convert_operators_2_tensor",
+                   RT + "RedfieldRelaxationTensor._post_implementation#operators",
+                   RT + "RedfieldRelaxationTensor._post_implementation#tensor",
+                   LF + "LindbladForm._implementation#operators", LF + "LindbladForm._implementation#tensor",
+                   RT + "RedfieldRelaxationTensor._implementation#operators",
+                   RT + "RedfieldRelaxationTensor._implementation#tensor",
+                   RX + "RelaxationTensor.secularize", RX + "RelaxationTensor.secularize#timedependent",
+                   RX + "RelaxationTensor.updateStructure", RX + "RelaxationTensor.updateStructure#timedependent",
+                   TD + "TDRedfieldRelaxationTensor._convert_operators_2_tensor",
+                   TD + "TDRedfieldRelaxationTensor.secularize",
+                   TD + "TDRedfieldRelaxationTensor._implementation#operators",
+                   TD + "TDRedfieldRelaxationTensor._implementation#tensor",
+                   FT + "FoersterRelaxationTensor.add_dephasing",
+                   FT + "FoersterRelaxationTensor.initialize#nodephasing",
+                   FT + "FoersterRelaxationTensor.initialize#puredephasing"]
+    p.lemmas = [lemma_redfield, lemma_redfield_td, lemma_secular, lemma_rate_structure]
     return p
